@@ -37,7 +37,8 @@ def pool(ctx, n):
     vals = [[decimal.Decimal("1.5"), decimal.Decimal("1.5")], [fractions.Fraction(1, 2)] * 3,
             {"a": {1, 2, 3}, "b": frozenset("xyz")}, {"k%d" % i: i for i in range(12)},
             [genvalues.verif_nat.Plain(a=1), genvalues.verif_nat.Plain(a=1), genvalues.verif_nat.Plain(a=1)],
-            {genvalues.verif_nat.Plain(x=i) for i in range(4)}]
+            {genvalues.verif_nat.Plain(x=i) for i in range(4)}, bytearray(b"abc"), [complex(1, 2), bytearray(b"x")],
+            [range(3), slice(1, 2)]]
     for v in vals:
         for proto in (0, 2, 4):
             out.append(pickle.dumps(v, protocol=proto))
